@@ -6,6 +6,7 @@ import (
 	"testing"
 	"testing/synctest"
 
+	v3 "istio.io/istio/pilot/pkg/xds/v3"
 	"istio.io/istio/zz_verif/engine"
 )
 
@@ -22,7 +23,9 @@ type cutCase struct {
 	Cut     int    `json:"cut_after_sends"`
 	Away    int    `json:"away_mask"` // which of the ops not applied before the cut are applied while away
 	Restart bool   `json:"restart"`
-	// Variant 1: sotw - EDS re-sent before CDS with re-warming; delta - explicit "*" plus a named watch
+	// Variant 1: sotw - EDS re-sent before CDS with re-warming; delta - explicit "*" plus a named watch.
+	// Variant 2 (sotw): as 1, and an endpoint-only change is pushed between the CDS response and the
+	// client's EDS re-request
 	Variant int `json:"variant"`
 }
 
@@ -41,6 +44,7 @@ type cutResult struct {
 	pendingOps int // ops not yet applied when the cut happened
 	retained   int
 	removedFor int
+	midPush    bool // variant 2: the endpoint-only push was placed
 }
 
 func runCut(t *testing.T, cc cutCase) (cr cutResult) {
@@ -97,12 +101,41 @@ func runCut(t *testing.T, cc cutCase) (cr cutResult) {
 			target = newServer(t, st.objects())
 		}
 		c2 := newClient(spec, cc.Delta)
-		c2.edsFirst, c2.explicitWildcard = cc.Variant == 1, cc.Variant == 1
+		c2.edsFirst, c2.explicitWildcard = cc.Variant >= 1, cc.Variant == 1
 		c2.retainFrom(c1)
 		for _, ty := range clientTypes {
 			cr.retained += len(c2.ts[ty].held)
 		}
 		c2.connect(target, true, -1)
+		if cc.Variant == 2 {
+			// an endpoint-only change is pushed between the server's CDS response and the moment the
+			// client has read it (and re-requests EDS for the clusters that warm again): the push's EDS
+			// response supersedes the nonce the re-request will carry
+			injected := false
+			for round := 0; round < 50 && !injected; round++ {
+				target.settle()
+				target.flushServer()
+				synctest.Wait()
+				if len(c2.ss.inbox) > 0 && c2.ss.inbox[0].TypeUrl == v3.ClusterType {
+					for _, o := range enabledOps(st, nil) {
+						if n := universe[o.ObjIdx].Name; (n == "we-w" || n == "k8s-slice") && o.Verb == "update" {
+							target.apply(o)
+							st = st.after(o)
+							target.settle()
+							target.flushServer()
+							synctest.Wait()
+							cr.midPush = true
+							break
+						}
+					}
+					injected = true
+					break
+				}
+				if !c2.pump() {
+					break
+				}
+			}
+		}
 		target.quiesce(c2)
 		want := target.fetch(spec, cc.Delta)
 		if d := diffSnap(c2.snapshot(), want.snapshot()); d != "" {
@@ -112,7 +145,11 @@ func runCut(t *testing.T, cc cutCase) (cr cutResult) {
 			}
 		}
 		if w := c2.warming(); len(w) > 0 {
-			cr.findings = append(cr.findings, finding{"resync-warming:" + flavour(cc.Delta) + ":" + strings.Join(w, ","), fmt.Sprintf("re-sent subscriptions never answered: %v", w)})
+			types := map[string]bool{}
+			for _, n := range w {
+				types[strings.SplitN(n, "/", 2)[0]] = true
+			}
+			cr.findings = append(cr.findings, finding{"resync-warming:" + flavour(cc.Delta) + ":" + strings.Join(sortedKeys(types), "+"), fmt.Sprintf("re-sent subscriptions never answered: %v", w)})
 		}
 		for _, ty := range clientTypes {
 			cr.removedFor += len(c2.removed[ty])
@@ -136,7 +173,7 @@ func flavour(delta bool) string {
 func TestC05(t *testing.T) {
 	env := engine.GetEnv()
 	res := engine.NewResult("C05", "reconnect")
-	res.Rule = "case = base x operation history x proxy x {sotw, delta} x cut after the k-th server message (every k of the exchange) x subset of the remaining operations applied while away x {same control plane, restarted control plane} x reconnect variant {CDS first; EDS re-sent first with re-warming (sotw) / explicit '*' plus a named watch (delta)}; non-trivial = case in which the client retained resources and something changed while it was away, or the cut fell inside a multi-message exchange"
+	res.Rule = "case = base x operation history x proxy x {sotw, delta} x cut after the k-th server message (every k of the exchange) x subset of the remaining operations applied while away x {same control plane, restarted control plane} x reconnect variant {CDS first; EDS re-sent first with re-warming (sotw) / explicit '*' plus a named watch (delta); sotw: as before with an endpoint-only push between the CDS response and the EDS re-request}; non-trivial = case in which the client retained resources and something changed while it was away, or the cut fell inside a multi-message exchange"
 	defer res.Write(t, env)
 	if env.Replay != "" {
 		var cc cutCase
@@ -179,8 +216,11 @@ func TestC05(t *testing.T) {
 					probe := runCut(t, cutCase{Base: b, Ops: []op{o}, Proxy: pi, Delta: delta, Cut: -1})
 					for k := 0; k <= probe.totalSends; k++ {
 						for _, restart := range []bool{false, true} {
-							for av := 0; av < 4; av++ {
+							for av := 0; av < 6; av++ {
 								away, variant := av%2, av/2
+								if variant == 2 && delta {
+									continue
+								}
 								cc := cutCase{Base: b, Ops: []op{o}, Proxy: pi, Delta: delta, Cut: k, Away: away, Restart: restart, Variant: variant}
 								if k == 0 {
 									cc.Cut = 0
